@@ -604,12 +604,220 @@ fn part_conjunctions(rng: &mut Rng, out: &mut CaseOut, thorough: bool) {
     }
 }
 
+
+// ------------------------------------------------------------------ (b3) merge_fruits with score ties at the K boundary
+/// Many tiny multi-segment indexes whose hits take few distinct scores (term frequency 1..4 in
+/// documents of one length), so that ties sit on the K boundary of the merge and inside a segment's
+/// fruit, which TopNHeap hands over in heap order (worst first, i.e. higher doc first among ties).
+/// By construction a score occurs at most twice per segment in 3 cases out of 4: the known finding
+/// F15 needs three hits of the boundary key in one segment, so there every wrong tie-break is an
+/// unclassified violation with a concrete input.
+fn tie_failure(out: &mut CaseOut, exh: &[(Score, DocAddress)], got: &[(Score, DocAddress)], k: usize, o: usize, why: &str, layout: Value) {
+    let desc = json!({"what": "by-score page of a multi-segment term query violates the spec", "why": why, "k": k, "offset": o,
+        "got": got.iter().map(|(s, a)| json!([s, a.segment_ord, a.doc_id])).collect::<Vec<_>>(),
+        "exhaustive": exh.iter().map(|(s, a)| json!([s, a.segment_ord, a.doc_id])).collect::<Vec<_>>(), "segments(term freq per doc, 0 = no match)": layout});
+    let mut sorted: Vec<(Score, DocAddress)> = exh.to_vec();
+    sorted.sort_by(|x, y| y.0.partial_cmp(&x.0).unwrap().then(x.1.cmp(&y.1)));
+    let spec: Vec<(Score, DocAddress)> = sorted.iter().skip(o).take(k).cloned().collect();
+    let tie_only = got.len() == spec.len() && got.iter().zip(spec.iter()).all(|(g, s)| g.0 == s.0);
+    let boundary = spec.last().map(|x| x.0);
+    let mut per_seg: HashMap<u32, usize> = HashMap::new();
+    if let Some(b) = boundary { for (s, a) in exh { if *s == b { *per_seg.entry(a.segment_ord).or_default() += 1; } } }
+    if tie_only && per_seg.values().any(|n| *n >= 3) {
+        // candidate for the known class; the classifier itself is evaluated by Coq
+        let segs = exh_as_celts(exh);
+        let gotc: Vec<(Option<i128>, u64)> = got.iter().map(|(s, a)| (Some(f32_ord(*s)), addr(*a))).collect();
+        out.coq_case("known:F15", format!("F15_class Natural {} {} {} {}", cf::list(&segs, |s| celts(s)), cf::nat(k), cf::nat(o), celts(&gotc)), desc, true);
+        out.count("merge_tie_failures_F15_candidates", 1);
+    } else {
+        out.count("merge_tie_failures_unclassified", 1);
+        out.spec_checked(false, desc);
+    }
+}
+
+fn part_merge_ties(rng: &mut Rng, out: &mut CaseOut, thorough: bool) {
+    let n_cases = if thorough { 1200 } else { 260 };
+    let mut coq_budget: i64 = if thorough { 400 } else { 90 };
+    for ci in 0..n_cases {
+        let mut layout: Vec<Vec<usize>> = vec![];
+        if ci % 3 != 0 {
+            // dense: 3..4 segments, each holding every one of 2..3 scores exactly twice (shuffled, plus a few
+            // non-matching documents): ties straddle the K boundary of the merge for most K, and the boundary
+            // key never occurs three times in one segment
+            let nseg = rng.range(3, 4) as usize;
+            let levels = rng.range(2, 3) as usize;
+            for _ in 0..nseg {
+                let mut seg: Vec<usize> = (0..2 * levels).map(|i| 1 + i / 2).collect();
+                if rng.chance(1, 3) { seg.pop(); }
+                for _ in 0..rng.below(4) { seg.push(0); }
+                rng.shuffle(&mut seg);
+                layout.push(seg);
+            }
+        } else {
+        let nseg = rng.range(2, 4) as usize;
+        let max_mult = if ci % 4 == 3 { 3 } else { 2 };
+        let levels = if ci % 5 == 0 { 4 } else { rng.range(2, 3) as usize };
+        for _ in 0..nseg {
+            let nd = if rng.chance(1, 5) { rng.range(1, 3) } else { rng.range(4, 9) } as usize;
+            let mut used = [0usize; 8];
+            let mut seg = vec![];
+            for _ in 0..nd {
+                let mut l = if rng.chance(1, 6) { 0 } else { 1 + rng.below(levels as u64) as usize };
+                if l > 0 && used[l] >= max_mult { l = 0; }
+                used[l] += 1;
+                seg.push(l);
+            }
+            layout.push(seg);
+        }
+        }
+        let segs: Vec<Vec<String>> = layout.iter().map(|seg| seg.iter().map(|l| format!("{} {}", rep("x", *l), rep("z", 8 - *l)).trim().to_string()).collect()).collect();
+        let (index, t) = body_index_with_budget(&segs, 20_000_000);
+        let searcher = index.reader().unwrap().searcher();
+        let q = TermQuery::new(Term::from_field_text(t, "x"), IndexRecordOption::WithFreqs);
+        let exh = match guarded(|| searcher.search(&q, &AllScores)) { Ok(Ok(v)) => v, _ => { out.spec_checked(false, json!({"what": "exhaustive collector failed", "layout": layout})); continue; } };
+        let n = exh.len();
+        out.count("merge_tie_indexes", 1);
+        if n == 0 { continue; }
+        // layout in the searcher's segment order, for the replay
+        let lay = json!(layout);
+        let all: Vec<(Option<i128>, u64)> = exh.iter().map(|(s, a)| (Some(f32_ord(*s)), addr(*a))).collect();
+        for k in 1..=(n + 1).min(8) {
+            for o in [0usize, 1, 2] {
+                if o > 0 && (k + ci) % 3 != 0 { continue; }
+                let got = match guarded(|| searcher.search(&q, &TopDocs::with_limit(k).and_offset(o).order_by_score())) { Ok(Ok(v)) => v, _ => { out.spec_checked(false, json!({"what": "TopDocs failed", "layout": lay, "k": k, "o": o})); continue; } };
+                out.count("merge_tie_pages", 1);
+                match check_score_page(&exh, &got, k, o, true) {
+                    Ok(()) => {
+                        out.spec_checked(true, Value::Null);
+                        if coq_budget > 0 && (ci + k) % 7 == 0 {
+                            coq_budget -= 1;
+                            let gotc: Vec<(Option<i128>, u64)> = got.iter().map(|(s, a)| (Some(f32_ord(*s)), addr(*a))).collect();
+                            out.coq_case("spec", format!("list_eqb celt_eqb (c_topk Natural {} {} {}) {}", cf::nat(k), cf::nat(o), celts(&all), celts(&gotc)),
+                                json!({"what": "by-score page, tiny multi-segment index with ties", "k": k, "offset": o, "layout": lay}), n > k + o);
+                        }
+                    }
+                    Err((why, _)) => tie_failure(out, &exh, &got, k, o, &why, lay.clone()),
+                }
+            }
+        }
+        // paging: every page size, every match exactly once in order
+        if ci % 3 == 0 {
+            let mut sorted = exh.clone();
+            sorted.sort_by(|x, y| y.0.partial_cmp(&x.0).unwrap().then(x.1.cmp(&y.1)));
+            for page in 1..=n.min(4) {
+                let mut paged: Vec<(Score, DocAddress)> = vec![];
+                let mut off = 0;
+                while off < n { if let Ok(Ok(v)) = guarded(|| searcher.search(&q, &TopDocs::with_limit(page).and_offset(off).order_by_score())) { paged.extend(v); } off += page; }
+                out.count("merge_tie_paging_sweeps", 1);
+                if paged != sorted {
+                    // locate the first wrong page and report it like a page failure
+                    let idx = paged.iter().zip(sorted.iter()).position(|(a, b)| a != b).unwrap_or(0);
+                    let off = idx / page * page;
+                    let gotp: Vec<(Score, DocAddress)> = paged.iter().skip(off).take(page).cloned().collect();
+                    tie_failure(out, &exh, &gotp, page, off, "paging does not enumerate every match exactly once in order", lay.clone());
+                } else { out.spec_checked(true, Value::Null); }
+            }
+        }
+    }
+}
+
+// ------------------------------------------------------------------ (b4) unions of >= 3 term clauses whose posting lists end at different places
+/// Single-segment corpora where every term lives in its own doc-id range (so a scorer reaches
+/// TERMINATED while the others are still far from their end -- inside align_scorers when it lags
+/// behind the pivot), with frequent low-impact terms and rare high-impact ones; every union of 3..5
+/// Should term clauses, small K, against the exhaustive oracle.  One segment and tf <= len/2 keep
+/// the known classes F3 / F6 out.
+/// A by-score search under a watchdog: a pruned union whose scorers got out of order may loop forever;
+/// that is an observation (spec failure), not a hang of the check.  The worker thread is abandoned on timeout.
+fn search_by_score_with_deadline(searcher: &Searcher, q: &dyn Query, k: usize, secs: u64) -> Result<Vec<(Score, DocAddress)>, String> {
+    let (tx, rx) = std::sync::mpsc::channel();
+    let s = searcher.clone();
+    let q = q.box_clone();
+    std::thread::spawn(move || {
+        let r = guarded(|| s.search(&*q, &TopDocs::with_limit(k).order_by_score()));
+        let _ = tx.send(match r { Ok(Ok(v)) => Ok(v), Ok(Err(e)) => Err(format!("error: {e:?}")), Err(p) => Err(format!("panic: {p}")) });
+    });
+    match rx.recv_timeout(std::time::Duration::from_secs(secs)) { Ok(r) => r, Err(_) => Err(format!("TIMEOUT: the search did not terminate within {secs} s")) }
+}
+
+const RANGED_TERMS: [&str; 7] = ["p", "q", "r", "s", "t", "u", "v"];
+
+fn part_ranged_unions(rng: &mut Rng, out: &mut CaseOut, thorough: bool) {
+    let n_corpora = if thorough { 40 } else { 10 };
+    for ci in 0..n_corpora {
+        let ndocs = match ci % 3 { 0 => rng.range(60, 200), 1 => rng.range(200, 500), _ => rng.range(500, 1200) } as usize;
+        // per term: (first doc, end doc, density per mille, high-tf share)
+        let specs: Vec<(usize, usize, u64, u64)> = RANGED_TERMS.iter().enumerate().map(|(j, _)| {
+            let lo = if rng.chance(1, 2) { 0 } else { rng.below(ndocs as u64 * 2 / 3) as usize };
+            let hi = (lo + 1 + rng.below((ndocs - lo) as u64) as usize).min(ndocs);
+            let dens = match (j + ci) % 4 { 0 => 900, 1 => 300, 2 => 60, _ => 15 };
+            (lo, hi, dens, rng.below(30))
+        }).collect();
+        let mut sb = Schema::builder();
+        let body = sb.add_text_field("body", TEXT);
+        let tag = sb.add_text_field("tag", STRING);
+        let index = Index::create_in_ram(sb.build());
+        {
+            let mut w: IndexWriter = index.writer_with_num_threads(1, 50_000_000).expect("writer");
+            w.set_merge_policy(Box::new(tantivy::merge_policy::NoMergePolicy));
+            for d in 0..ndocs {
+                let mut toks: Vec<&str> = vec![];
+                for (j, t) in RANGED_TERMS.iter().enumerate() {
+                    let (lo, hi, dens, high) = specs[j];
+                    if d >= lo && d < hi && (rng.below(1000) < dens || d == lo || d + 1 == hi) {
+                        let tf = if rng.below(100) < high { rng.range(2, 4) } else { 1 };
+                        for _ in 0..tf { toks.push(t); }
+                    }
+                }
+                let target = (2 * toks.len() + 2).max(8 + rng.below(3) as usize);
+                while toks.len() < target { toks.push("z"); }
+                let mut doc = TantivyDocument::default();
+                doc.add_text(body, &toks.join(" "));
+                doc.add_text(tag, &format!("t{}", rng.below(9)));
+                w.add_document(doc).unwrap();
+            }
+            if ci % 4 == 3 { w.delete_term(Term::from_field_text(tag, "t3")); }
+            w.commit().expect("commit");
+            w.wait_merging_threads().ok();
+        }
+        let corpus = Corpus { index: index.clone(), body, tag, vals: HashMap::new(), nseg_target: 1 };
+        let searcher = index.reader().unwrap().searcher();
+        let extra = json!({"ranged_corpus": ci, "docs": ndocs, "terms(first,end,density_permille,high_tf_pct)": specs.iter().map(|x| json!([x.0, x.1, x.2, x.3])).collect::<Vec<_>>(), "deletes": ci % 4 == 3});
+        out.count("ranged_corpora", 1);
+        for mask in 0u32..128 {
+            let n_terms = mask.count_ones();
+            if !(3..=5).contains(&n_terms) { continue; }
+            if !thorough && n_terms == 5 && (mask as usize + ci) % 2 == 1 { continue; }
+            let ws: Vec<&str> = (0..7).filter(|j| mask >> j & 1 == 1).map(|j| RANGED_TERMS[j]).collect();
+            let q = BooleanQuery::new(ws.iter().map(|w| (Occur::Should, term_q(&corpus, w))).collect());
+            let qdesc = format!("or:{}", ws.join("|"));
+            let exh = match guarded(|| searcher.search(&q, &AllScores)) { Ok(Ok(v)) => v, r => { out.spec_checked(false, json!({"what": "exhaustive collector failed (panic?)", "query": qdesc, "r": format!("{:?}", r.err()), "corpus": extra})); continue; } };
+            out.count("ranged_union_queries", 1);
+            for k in [1usize, 2, 3, 5] {
+                let got = match search_by_score_with_deadline(&searcher, &q, k, 20) {
+                    Ok(v) => v,
+                    Err(e) => {
+                        out.spec_checked(false, json!({"what": "TopDocs by score over a union of term clauses failed, panicked or did not terminate", "query": qdesc, "k": k, "r": e, "corpus": extra}));
+                        if e.starts_with("TIMEOUT") { out.count("ranged_union_timeouts", 1); return; }
+                        continue;
+                    } };
+                out.count("ranged_union_pages", 1);
+                match check_score_page(&exh, &got, k, 0, false) {
+                    Ok(()) => out.spec_checked(true, Value::Null),
+                    Err((why, missed)) => report_score_failure(out, &searcher, &corpus, &qdesc, &exh, &got, k, 0, &why, missed, false, extra.clone()),
+                }
+            }
+        }
+    }
+}
+
 // ------------------------------------------------------------------ (c) corpus: witnesses of the known findings
-fn body_index(segs: &[Vec<String>]) -> (Index, Field) {
+fn body_index(segs: &[Vec<String>]) -> (Index, Field) { body_index_with_budget(segs, 200_000_000) }
+fn body_index_with_budget(segs: &[Vec<String>], budget: usize) -> (Index, Field) {
     let mut sb = Schema::builder();
     let t = sb.add_text_field("body", TEXT);
     let index = Index::create_in_ram(sb.build());
-    let mut w: IndexWriter = index.writer_with_num_threads(1, 200_000_000).unwrap();
+    let mut w: IndexWriter = index.writer_with_num_threads(1, budget).unwrap();
     w.set_merge_policy(Box::new(tantivy::merge_policy::NoMergePolicy));
     for s in segs {
         for d in s { let mut doc = TantivyDocument::default(); doc.add_text(t, d); w.add_document(doc).unwrap(); }
@@ -699,5 +907,7 @@ fn main() {
     part_topn(&mut rng, &mut out, thorough);
     part_e2e(&mut rng, &mut out, thorough);
     part_conjunctions(&mut rng, &mut out, thorough);
+    part_merge_ties(&mut rng, &mut out, thorough);
+    part_ranged_unions(&mut rng, &mut out, thorough);
     out.finish(json!({"tier": args.tier, "seed": args.seed}));
 }
